@@ -89,7 +89,14 @@ OTHER_NAMES = [('r#type', 'r#type'), ('r#fn', 'r#fn'), ('http.method', 'http.met
 
 def gen_invocation(rng, idx):
     kind = rng.choice(['e', 'e', 's'])
-    level = rng.randrange(1, 6)
+    level = (idx // 16) % 5 + 1        # (cycles, like the prefix combination and the macro form: period 80)
+    rng.randrange(1, 6)
+    if idx % 25 == 24:
+        # `enabled!`: would a span / event with this metadata be enabled?  (field NAMES only: nothing is evaluated or visited)
+        form = rng.choice(['tracing::enabled!(tracing::Level::%s)', 'tracing::enabled!(target: "custom::target", tracing::Level::%s)',
+                           'tracing::enabled!(tracing::Level::%s, a, b)', 'tracing::enabled!(target: "custom::target", tracing::Level::%s, count)'])
+        fn = 'fn inv_%d() {\n    c10_rt::answer(%s);\n}\n' % (idx, form % LEVELS[level])
+        return fn, 0, 'I q %d ;; ' % level
     nfields = rng.choice([0, 1, 2, 3, 5])
     used = set(); fields = []; descr = []; pre = []; tick = 0
     for _ in range(nfields):
@@ -138,18 +145,18 @@ def gen_invocation(rng, idx):
     if combo & 2: prefix.append('parent: None')
     want_name = bool(combo & 4)
     # a dotted name cannot come FIRST after a prefix at all ("local ambiguity", a compile error): no prefix then
-    if prefix and fields and fields[0].lstrip('%?') in ('conn.port', 'conn.peer.id'):
-        prefix = []
+    if (prefix or want_name) and fields and fields[0].lstrip('%?') in ('conn.port', 'conn.peer.id'):
+        prefix = []; want_name = False
     # after a `target:` / `parent:` / `name:` prefix the macros have no arm for a LONE bare identifier (it is read as a format
     # string and rejected at compile time): write the shorthand out
-    if prefix and len(fields) == 1 and fields[0].lstrip('%?') in IDENT_NAMES:
+    if (prefix or want_name) and len(fields) == 1 and fields[0].lstrip('%?') in IDENT_NAMES:
         fields[0] = '%s = %s' % (fields[0].lstrip('%?'), fields[0])
     body = ', '.join(fields)
     if kind == 'e':
-        if not want_name and rng.random() < 0.5:
+        if want_name: prefix.insert(0, 'name: "ev.name"')
+        if (idx // 8) % 2 == 0:
             mac = 'tracing::%s!(%s%s)' % (SHORT_EV[level], ''.join(p + ', ' for p in prefix), body)
         else:
-            if want_name: prefix.insert(0, 'name: "ev.name"')
             mac = 'tracing::event!(%stracing::Level::%s%s)' % (''.join(p + ', ' for p in prefix), LEVELS[level], (', ' + body) if body else '')
         if mac.endswith(', )'): mac = mac[:-3] + ')'
         stmt = mac + ';'
@@ -216,6 +223,11 @@ def judge(case, out):
     regs = out.split(' / ')
     if len(regs) != 4: return 'bad shape'
     level = int(case.split()[2])
+    if case.split()[1] == 'q':
+        for k, r in enumerate(regs):
+            want = 1 if ((k == 0) or (k == 3 and level <= 2)) else 0
+            if r != 'v=71:enabled:%d|e=-' % want: return 'bad enabled!-answer regime=%d %s' % (k, r)
+        return 'ok'
     fields = fields_of(case)
     nticks = sum(int(f[2][1:]) for f in fields)
     for k, r in enumerate(regs):
@@ -225,6 +237,10 @@ def judge(case, out):
         if len(counts) != nticks: return 'bad tick-count'
         if enabled:
             if any(c != 1 for c in counts): return 'bad evaluated-not-once regime=%d %s' % (k, e)
+            ents = [] if v == '-' else v.split(';')
+            lv = [x for x in ents if x.split(':')[1] == 'level']
+            if lv != ['6c766c:level:%d' % level]: return 'bad level-handed-to-the-collector regime=%d %s (written: %d)' % (k, lv, level)
+            v = ';'.join(x for x in ents if x.split(':')[1] != 'level') or '-'
             names = [] if v == '-' else [x.split(':')[0] for x in v.split(';')]
             want = [f[0] for f in fields if f[1].startswith('m:')] + [f[0] for f in fields if not f[1].startswith('m:') and f[1] != 'e']
             if names != want: return 'bad names-or-order regime=%d got=%s want=%s' % (k, names, want)
@@ -245,7 +261,7 @@ def classify(stream, case, out):
     t = case.split()
     specs = [f[1] for f in fields_of(case)]
     kinds = ''.join(sorted(set(s[0] for s in specs)))
-    return '%s level=%s fields=%d kinds=%s' % ('event' if t[1] == 'e' else 'span', t[2], len(specs), kinds)
+    return '%s level=%s fields=%d kinds=%s' % ({'e': 'event', 's': 'span', 'q': 'enabled!'}[t[1]], t[2], len(specs), kinds)
 
 _s = Stream('corpus', 'c10_corpus', gen=gen, nontrivial=nontrivial, crate='harness-corpus', bulk=True)
 _s.py_judge = judge
